@@ -1,6 +1,6 @@
-(** C18 — text path, for EVERY text and EVERY interval list (matches non-empty, no CR/LF): all markup bytes of the input are escaped (invertibly), the output is the escaped text with anchors around exactly the match segments and br at line ends, stripping the tags gives the escaped text back, every tag is one of the three generated forms, every href is attribute-safe *)
+(** C18 — text path, for EVERY text and EVERY interval list (matches non-empty, no CR/LF): all markup bytes of the input are escaped (invertibly), the output is the escaped text with anchors around exactly the match segments and br at line ends, stripping the tags gives the escaped text back, every tag is one of the three generated forms, every href is attribute-safe. NOT claimed: the scheme of a generated href (see text_anchor_scheme_not_claimed) *)
 From IV Require Import Base.Bytes Gen.SanitizeConsts Model.Sanitize Proofs.SanitizeEscape Proofs.SanitizeText.
-Theorem text_to_html_inert : forall (t : str) (ivs : list (N * N)),
+Theorem text_to_html_escaped_and_anchored : forall (t : str) (ivs : list (N * N)),
   matches_plain (escape_std t) ivs = true ->
   let e := escape_std t in
   let segs := wrap_segs 0 e ivs in
@@ -9,5 +9,5 @@ Theorem text_to_html_inert : forall (t : str) (ivs : list (N * N)),
   /\ (strip_tags false (text_to_html t ivs) = normalise_nl e
       /\ forallb gen_tag_ok (tags_of None (text_to_html t ivs)) = true)
   /\ (forall m, In (SAnchor m) segs -> forall c, In c (href_of m) -> c <> 34 /\ c <> 60 /\ c <> 62 /\ c <> 39).
-Proof. exact SanitizeText.text_to_html_inert. Qed.
-Print Assumptions text_to_html_inert.
+Proof. exact SanitizeText.text_to_html_escaped_and_anchored. Qed.
+Print Assumptions text_to_html_escaped_and_anchored.
